@@ -110,6 +110,18 @@ class World:
     def kinds(self):
         return [kind_of(o) for o in self.objs]
 
+    def _container(self, xs):
+        """the same sequence as a list, a tuple, a one-shot iterator or a generator (any iterable is accepted by the
+        constructors; the choice depends on the allocation count only, so runs are reproducible)"""
+        m = len(self.objs) % 4
+        if m == 0:
+            return list(xs)
+        if m == 1:
+            return tuple(xs)
+        if m == 2:
+            return iter(list(xs))
+        return (x for x in list(xs))
+
     def id_of(self, o):
         if o is None:
             return None
@@ -157,15 +169,15 @@ class World:
             cls = FalsyV if op[1] == 2 else VSub if op[1] else Vertex
             kw = {}
             if us:
-                kw["universes"] = list(us)
+                kw["universes"] = self._container(us)
             if ls:
-                kw["links"] = list(ls)
+                kw["links"] = self._container(ls)
             return ("id", cls(**kw))
         if t == "NU":
             vs = [g(i, V) for i in op[1]]
             kw = {}
             if vs:
-                kw["vertices"] = list(vs)
+                kw["vertices"] = self._container(vs)
             if op[2] is not None:
                 kw["laws"] = g(op[2], W)
             return ("id", Universe(**kw))
